@@ -220,6 +220,11 @@ def items_in(src, m, lo, hi):
                 k = skip_ws(m, m2.end())
                 m2 = IDENT_RE.match(m, k)
             name = m2.group(0) if m2 else None
+        if kw == "macro_rules":
+            k = skip_ws(m, j)
+            if k < hi and m[k] == "!":
+                m2 = IDENT_RE.match(m, skip_ws(m, k + 1))
+                name = m2.group(0) if m2 else None
         # find end
         if kw in ("use", "type", "const", "static", "extern"):
             e = _find_semicolon(m, j, hi)
